@@ -7,9 +7,13 @@
       identity in Go; a constructor here).
     - [code]: the seventeen gRPC codes, in numeric order ([code_num]).
     - [err]: non-nil error values, as the API builds them: a sentinel, a
-      class-less leaf ([errors.New]), a gRPC status error ([status.Error]),
-      [fmt.Errorf("%s: %w", text, e)] and the result of a successful
-      [EmbedObject(o, e)].  The Go value [nil] is [None : option err].
+      class-less leaf ([errors.New]), a leaf of another type whose [Is] method
+      answers for a sentinel (syscall.ENOENT), a gRPC status error
+      ([status.Error]), [fmt.Errorf("%s: %w", text, e)], the result of a
+      successful [EmbedObject(o, e)], and wrapping TREES: a layer with several
+      wrapped operands ([fmt.Errorf] with several %w verbs, [errors.Join], a
+      custom type with [Unwrap() []error] or [Unwrap() error]).  The Go value
+      [nil] is [None : option err].
     - messages ([err.Error()]) are token lists: the property only depends on
       where the embed marker "\x1bjson" occurs in a message and on what stands
       between two markers.  [Text] carries the bytes, so that a message can
@@ -128,39 +132,69 @@ Definition decode_segment (s : msg) : option obj :=
 
 (** * Error values *)
 
+(* the first result of f, in list order *)
+Definition first_some {A B : Type} (f : A -> option B) : list A -> option B :=
+  fix go (l : list A) : option B :=
+    match l with
+    | [] => None
+    | a :: r => match f a with Some b => Some b | None => go r end
+    end.
+
 Inductive err :=
 | Sentinel (c : class)               (* one of the package-level variables *)
 | Plain (t : msg)                    (* errors.New(t): no class, no status *)
+| IsLeaf (c : class) (t : msg)       (* a value of another (hashable) type whose Is method answers true for
+                                        the sentinel c and for nothing else: syscall.ENOENT, a custom type *)
 | Status (k : code) (m : msg)        (* status.Error(k, m), k <> OK *)
-| Wrap (t : msg) (e : err)           (* fmt.Errorf("%s: %w", t, e) *)
+| Wrap (t : msg) (e : err)           (* fmt.Errorf("%s: %w", t, e); a custom type with Unwrap() error and this text *)
 | Glue (t : msg) (e : err)           (* fmt.Errorf("%s%w", t, e): no separator *)
-| Embed (o : obj) (e : err).         (* EmbedObject(o, e) when it neither panics nor gives up *)
+| Embed (o : obj) (e : err)          (* EmbedObject(o, e) when it neither panics nor gives up *)
+| Multi (t0 : msg) (ps : list (err * msg)).
+                                     (* a layer with the wrapped operands e1 .. en (n >= 1, all non-nil), in
+                                        this order, and the text t0 ++ e1 ++ t1 ++ ... ++ en ++ tn:
+                                        fmt.Errorf with several %w verbs (type fmt.wrapErrors; a nil operand is the
+                                        text "%!w(<nil>)" and no operand), errors.Join (t0 empty, "\n" between
+                                        the operands; nil operands are dropped), a custom type with
+                                        Unwrap() []error.  errors.Unwrap of such a value is nil; errors.Is and
+                                        errors.As visit the operands depth-first, left to right *)
+
+(* the text of the operands of a Multi layer *)
+Definition ops_text (message : err -> msg) (ps : list (err * msg)) : msg :=
+  flat_map (fun p => let '(e', t) := p in message e' ++ t) ps.
 
 (* err.Error() *)
 Fixpoint message (e : err) : msg :=
   match e with
   | Sentinel c => [ClassText c]
   | Plain t => t
+  | IsLeaf _ t => t
   | Status k m => StatusPrefix k :: m      (* Status.String() *)
   | Wrap t e' => t ++ sep :: message e'
   | Glue t e' => t ++ message e'
   | Embed o e' => Marker :: Json o :: Marker :: sep :: message e'
+  | Multi t0 ps => t0 ++ ops_text message ps
   end.
 
-(* stdlib errors.Is(e, <sentinel c>): walks the Unwrap chain comparing
-   pointers; *status.Error has an Is method that only matches another
-   *status.Error, *fmt.wrapError has none *)
+Definition ops_msg (ps : list (err * msg)) : msg := ops_text message ps.
+
+(* stdlib errors.Is(e, <sentinel c>): depth-first pre-order walk of the tree
+   of Unwrap() error / Unwrap() []error, comparing pointers and asking Is
+   methods; *status.Error has an Is method that only matches another
+   *status.Error, *fmt.wrapError / *fmt.wrapErrors / *errors.joinError have none *)
 Fixpoint is_chain (e : err) (c : class) : bool :=
   match e with
   | Sentinel c0 => class_eqb c0 c
   | Plain _ => false
+  | IsLeaf c0 _ => class_eqb c0 c
   | Status _ _ => false
   | Wrap _ e' => is_chain e' c
   | Glue _ e' => is_chain e' c
   | Embed _ e' => is_chain e' c
+  | Multi _ ps => existsb (fun p => let '(e', _) := p in is_chain e' c) ps
   end.
 
-(* errors.As(err, &grpcstatus): the first error of the chain with a GRPCStatus method *)
+(* errors.As(err, &grpcstatus): the first error of the tree, in depth-first
+   pre-order, that has a GRPCStatus method *)
 Fixpoint inner_status (e : err) : option code :=
   match e with
   | Status k _ => Some k
@@ -169,7 +203,34 @@ Fixpoint inner_status (e : err) : option code :=
   | Embed _ e' => inner_status e'
   | Sentinel _ => None
   | Plain _ => None
+  | IsLeaf _ _ => None
+  | Multi _ ps => first_some (fun p => let '(e', _) := p in inner_status e') ps
   end.
+
+(* the classes errors.Is can find in the tree (sentinels and Is-method
+   leaves), in depth-first pre-order *)
+Fixpoint classes_of (e : err) : list class :=
+  match e with
+  | Sentinel c => [c]
+  | IsLeaf c _ => [c]
+  | Plain _ => []
+  | Status _ _ => []
+  | Wrap _ e' => classes_of e'
+  | Glue _ e' => classes_of e'
+  | Embed _ e' => classes_of e'
+  | Multi _ ps => flat_map (fun p => let '(e', _) := p in classes_of e') ps
+  end.
+
+(* all classes of the tree are one and the same class (or there is none): the
+   well-formedness condition under which the result of GRPCStatusCode does not
+   depend on the order in which Go ranges over the map errorsToCode *)
+Definition uniform (e : err) : bool :=
+  match classes_of e with
+  | [] => true
+  | c :: r => forallb (class_eqb c) r
+  end.
+
+Definition the_class (e : err) : option class := hd_error (classes_of e).
 
 (* status.FromError (grpc 1.55) on a non-nil error: code and message of the Status *)
 Definition from_error (e : err) : code * msg :=
@@ -341,9 +402,12 @@ Definition tables_ok (T : tables) : bool :=
 Inductive frame :=
 | FWrap (t : msg)        (* fmt.Errorf("%s: %w", t, _) *)
 | FGlue (t : msg)        (* fmt.Errorf("%s%w", t, _) *)
-| FEmbed (o : obj).      (* EmbedObject(o, _) *)
+| FEmbed (o : obj)       (* EmbedObject(o, _) *)
+| FMulti (t0 : msg) (before : list (err * msg)) (t : msg) (after : list (err * msg)).
+                         (* a Multi layer with the hole as one of its operands: the operands [before]
+                            stand to its left, [after] to its right, [t] is the text that follows the hole *)
 
-Definition ctx := list frame.   (* outermost frame first *)
+Definition ctx := list frame.   (* outermost frame first: a path from the root of the tree to the hole *)
 
 Fixpoint plug (c : ctx) (e : err) : err :=
   match c with
@@ -351,6 +415,7 @@ Fixpoint plug (c : ctx) (e : err) : err :=
   | FWrap t :: r => Wrap t (plug r e)
   | FGlue t :: r => Glue t (plug r e)
   | FEmbed o :: r => Embed o (plug r e)
+  | FMulti t0 b t a :: r => Multi t0 (b ++ (plug r e, t) :: a)
   end.
 
 (* building the same value through the API, innermost frame first; None: an
@@ -366,19 +431,56 @@ Fixpoint build (c : ctx) (e : err) : option err :=
           | FWrap t => Some (Wrap t e')
           | FGlue t => Some (Glue t e')
           | FEmbed o => embed_object o e'
+          | FMulti t0 b t a => Some (Multi t0 (b ++ (e', t) :: a))
           end
       end
   end.
 
 Definition frame_markers (f : frame) : nat :=
-  match f with FWrap t => count_markers t | FGlue t => count_markers t | FEmbed _ => 0 end.
+  match f with
+  | FWrap t => count_markers t
+  | FGlue t => count_markers t
+  | FEmbed _ => 0
+  | FMulti t0 b t a => count_markers (t0 ++ ops_msg b) + count_markers (t ++ ops_msg a)
+  end.
 
-(* no wrap text of the context contains a marker *)
+(* no wrap text of the context (and no text of a side operand) contains a marker *)
 Definition ctx_marker_free (c : ctx) : bool :=
   forallb (fun f => Nat.eqb (frame_markers f) 0) c.
 
 Definition ctx_embeds (c : ctx) : list obj :=
-  flat_map (fun f => match f with FEmbed o => [o] | FWrap _ => [] | FGlue _ => [] end) c.
+  flat_map (fun f => match f with FEmbed o => [o] | _ => [] end) c.
+
+(* a side operand that brings neither a class nor a status error into the tree
+   (io.EOF, errors.New, context.Canceled, wrapped ones, joins of them ...) *)
+Definition side_ok (s : err) : bool :=
+  match classes_of s, inner_status s with
+  | [], None => true
+  | _, _ => false
+  end.
+
+Definition frame_sides_ok (f : frame) : bool :=
+  match f with
+  | FMulti _ b _ a => forallb (fun p => side_ok (fst p)) (b ++ a)
+  | _ => true
+  end.
+
+(* exactly one class per tree: the hole is the only place where a class (or a status error) can stand *)
+Definition ctx_sides_ok (c : ctx) : bool := forallb frame_sides_ok c.
+
+(* a chain: no layer has more than one operand *)
+Definition frame_linear (f : frame) : bool :=
+  match f with FMulti _ _ _ _ => false | _ => true end.
+Definition ctx_linear (c : ctx) : bool := forallb frame_linear c.
+
+Fixpoint err_linear (e : err) : bool :=
+  match e with
+  | Wrap _ e' => err_linear e'
+  | Glue _ e' => err_linear e'
+  | Embed _ e' => err_linear e'
+  | Multi _ _ => false
+  | _ => true
+  end.
 
 (** * Byte level *)
 
@@ -405,25 +507,33 @@ Fixpoint starts_with (p s : bytes) : bool :=
   | a :: p', b :: s' => (a =? b) && starts_with p' s'
   end.
 
+(* list reversal in linear time (the [rev] of the standard library is
+   quadratic: messages of 64 KB are evaluated) *)
+Definition frev (l : bytes) : bytes := rev_append l [].
+
 (* strings.Split(s, "\x1bjson"): left-most non-overlapping occurrences.
    [skip] counts the remaining bytes of an occurrence that has been found,
    [cur] is the current segment, reversed. *)
 Fixpoint split_bytes_aux (s : bytes) (skip : nat) (cur : bytes) : list bytes :=
   match s with
-  | [] => [rev cur]
+  | [] => [frev cur]
   | b :: r =>
       match skip with
       | S k => split_bytes_aux r k cur
       | O => if starts_with marker_bytes s
-             then rev cur :: split_bytes_aux r 4 []
+             then frev cur :: split_bytes_aux r 4 []
              else split_bytes_aux r 0 (b :: cur)
       end
   end.
 
 Definition split_bytes (s : bytes) : list bytes := split_bytes_aux s 0 [].
 
-Definition bytes_eqb (a b : bytes) : bool :=
-  if list_eq_dec N.eq_dec a b then true else false.
+Fixpoint bytes_eqb (a b : bytes) : bool :=
+  match a, b with
+  | [], [] => true
+  | x :: a', y :: b' => (x =? y) && bytes_eqb a' b'
+  | _, _ => false
+  end.
 
 (* no occurrence of the marker starts anywhere in s *)
 Fixpoint no_occurrence (s : bytes) : bool :=
@@ -480,6 +590,9 @@ Fixpoint err_wf (e : err) : bool :=
   | Wrap t e' => msg_wf t && err_wf e'
   | Glue t e' => msg_wf (t ++ message e') && err_wf e'   (* no separator: the junction itself must be safe *)
   | Embed o e' => no_esc o && err_wf e'
+  | IsLeaf _ t => msg_wf t
+  | Multi t0 ps => msg_wf (t0 ++ ops_msg ps)              (* no separators: the junctions themselves must be safe *)
+                   && forallb (fun p => let '(e', _) := p in err_wf e') ps
   end.
 
 (* ExtractObject's search on the rendered message: the bytes between the two markers *)
